@@ -33,11 +33,17 @@ def run(ck):
     ck.stubs += ['S_pack in c03_plumb (UtcDateTime::from_timespec := range gate + injective packing; discharged by C01)', 'S_unreach in c03_plumb']
     hs = [H('c14_eq_ord', cap=600, playback=True, meaning='== and partial_cmp depend only on (unix_time, nanoseconds), never None'),
           H('c03_plumb', cap=1500, meaning='from_timespec(t,ns,zone) and project(): instant and nanoseconds preserved, type = lookup result, fields = fields of t+offset, OutOfRange iff t+offset leaves the range'),
-          H('c02_derive_ord_is_lexicographic', cap=600, playback=True, meaning='derive(Ord/Eq) of UtcDateTime is lexicographic on the field tuple')]
+          H('c02_derive_ord_is_lexicographic', cap=600, playback=True, meaning='derive(Ord/Eq) of UtcDateTime is lexicographic on the field tuple'),
+          H('c14_search_entries_leap1_norule_n1', cap=1500, meaning='every entry DateTime::find_n hands out on zones with <= 1 transition, one leap-second record, no trailing rule (thorough: + Fixed rule): valid results carry the searched fields and unix_time + offset = their civil count; gap entries are the (packed) fields of the transition instant on either clock')]
+    ck.stubs += ['S_civil / S_pack in c14_search_entries_leap1_norule_n1 (as in C05)']
+    if not quick:
+        hs.append(H('c14_search_entries_leap1_fixed_n1', cap=3600, meaning='same with a trailing rule none or Fixed(any)'))
     def on_fail(B, h):
         if h.name == 'c03_plumb':
             import c03
             c03.replay_plumb(ck, B, h)
+        elif h.name.startswith('c14_search_entries'):
+            kprop.replay_search_failure(ck, B, h, 1)
         elif h.playback_ok:
             kprop.playback_violation(ck, B, h)
         else:
@@ -142,8 +148,11 @@ def run(ck):
 def replay(ck, case):
     if case['case'].get('kind') == 'kani-playback':
         return kprop.replay_playback(ck, case)
-    nat = common.Native()
     c = case['case']
+    if c.get('kind') in ('normals', 'gaps', 'order', 'panic', 'stale-buffer'):
+        import c05
+        return c05.replay(ck, case)
+    nat = common.Native()
     out = nat.both([c['cmd']])[0]
     print(out)
     if c.get('kind') == 'local':
